@@ -1,4 +1,5 @@
 import Snel.Model.IdGen
+import Snel.Gen.C12
 /-!
 Model of context routing and of the shard fan-out of reads (C12).
 
@@ -170,7 +171,7 @@ def System.init (n : Nat) : System := ⟨List.replicate n ⟨Gen.init, []⟩, []
 def System.n (s : System) : Nat := s.shards.length
 
 /-- The shard tag handed to the generator: `self.id as u16`. -/
-def tagArg (i : Nat) : Nat := i % 65536
+def tagArg (i : Nat) : Nat := i % 2 ^ Snel.Gen.C12.shardTagCastBits
 
 /-- STORE `key` for `ctx`; `clk` is what the system clock shows during the call (consumed by
 `EventIdGenerator::next` of the target shard). A blank context is refused before routing; if
@@ -196,7 +197,7 @@ def System.restart (s : System) : System :=
 inductive Op where
   | store (ctx : Ctx) (key : Nat) (clk : List Nat)
   | restart
-  deriving Repr
+  deriving Repr, DecidableEq
 
 def System.apply (s : System) : Op → System
   | .store c k clk => s.store c k clk
